@@ -293,6 +293,15 @@ def support_result(ev_, fi, bound):
     rets = [n for n in ast.walk(fi.node) if isinstance(n, ast.Return) and n.value is not None]
     if not rets or all(isinstance(r.value, ast.Name) for r in rets):
         return THR
+    def builds_record(v):
+        # a tuple literal, or a call of a CLASS of the module (a NamedTuple / dataclass record) - not a call of a helper function
+        if isinstance(v, ast.Tuple):
+            return True
+        if isinstance(v, ast.Call) and isinstance(v.func, ast.Name):
+            return v.func.id in fi.module.classes
+        return False
+    if len(rets) == 1 and not builds_record(rets[0].value):
+        return THR          # `return _orient(scores, thresholds, x_axis)`: still the bare threshold array
     if len(rets) == 1 and isinstance(rets[0].value, (ast.Call, ast.Tuple)):
         frame = Frame(fi.module, fi, None, None)
         frame.vars.update(bound)
